@@ -254,7 +254,7 @@ theorem sideTooLong_mono {b k : Bytes} (h : sideTooLong b k true = false) : side
   omega
 
 /-- what must hold for an owner's `complete_multipart_upload` that passes validation to be compared with the store: the
-    bucket exists [fs:complete-into-missing-bucket] and the key's path is free; side-file names fit. (Since cf67827 the
+    bucket exists [fs:complete-into-missing-bucket] and the key's path is free; side-file names fit. (Since 47e9b00 the
     metadata and the checksums of the object it replaces do not matter: they are replaced too; before:
     fs:stale-metadata-after-complete, fs:stale-checksum-after-complete.) -/
 def CompleteSuccessOk (s : State) (b k : Bytes) (_id : Nat) : Prop :=
@@ -279,7 +279,7 @@ def CompleteOwnerOk (s : State) (b k : Bytes) (id : Nat) (pl : List (Option Int)
     | some cs => sizesOk cs = true → CompleteSuccessOk s b k id)
 
 /-- `complete_multipart_upload` comparable: a non-empty part list is given [else fs:complete-part-list-validation]; the
-    upload does not exist (`NoSuchUpload` on both sides since 38336b0; before: fs:unknown-upload-code), or it was created for
+    upload does not exist (`NoSuchUpload` on both sides since 4609ab3; before: fs:unknown-upload-code), or it was created for
     this bucket and key [else fs:upload-not-bound-to-key] and, if the requester owns it, the request meets
     `CompleteOwnerOk` -/
 def CompleteOk (s : State) (who : Who) (b k : Bytes) (u : UploadRef) (parts : Option (List (Option Int))) : Prop :=
